@@ -32,7 +32,8 @@ theorem verify_eq (ae : Ax.Env) (s : List Ax.Act) (u p : Bytes) :
     BasicAuthMiddleware_verify ae s u p = (BasicAuth.lookup ae.table u == some p) := by
   unfold BasicAuthMiddleware_verify
   unfold_auth_helpers
-  simp only [Ax.mapContains, Ax.mapValue]
+  -- (`delta`, not `simp only`: the vocabulary words also occur inside the `Decidable` instances of `if`s)
+  delta Ax.mapContains Ax.mapValue
   cases BasicAuth.lookup ae.table u <;> simp
 
 theorem basic_lit : lower ([66, 97, 115, 105, 99] : Bytes) = BasicAuth.BASIC := by decide
@@ -48,6 +49,28 @@ theorem challenge_eq (realm : Bytes) :
   rw [h]
   simp [joinWith, BasicAuth.challenge, lit]
   decide
+
+/-- the same challenge built by concatenation (`QLatin1String("Basic realm=\"") + realm + QLatin1Char('"')`) -/
+theorem challenge_cat (realm : Bytes) :
+    ([66, 97, 115, 105, 99, 32, 114, 101, 97, 108, 109, 61, 34] : Bytes) ++ realm ++ [34] = BasicAuth.challenge realm := by
+  simp [BasicAuth.challenge, lit]
+  decide
+
+theorem challenge_cons (realm : Bytes) :
+    (66 :: 97 :: 115 :: 105 :: 99 :: 32 :: 114 :: 101 :: 97 :: 108 :: 109 :: 61 :: 34 :: (realm ++ [34]) : Bytes) = BasicAuth.challenge realm := by
+  rw [← challenge_cat]; rfl
+
+theorem last_two (a b : Bytes) : Cxx.last [a, b] = b := rfl
+theorem last_one (a : Bytes) : Cxx.last [a] = a := rfl
+theorem last_nil : Cxx.last [] = [] := rfl
+
+/-! equalities the C++ may write either way round, oriented once and for all -/
+theorem round_beq (f : Bytes → Bytes) (x : Bytes) : (x == f x) = (f x == x) := by
+  rw [Bool.eq_iff_iff]; simp only [beq_iff_eq]; exact eq_comm
+theorem round_eq (f : Bytes → Bytes) (x : Bytes) : (x = f x) = (f x = x) := propext eq_comm
+theorem basic_beq (x : Bytes) : (BasicAuth.BASIC == lower x) = (lower x == BasicAuth.BASIC) := by
+  rw [Bool.eq_iff_iff]; simp only [beq_iff_eq]; exact eq_comm
+theorem basic_eq (x : Bytes) : (BasicAuth.BASIC = lower x) = (lower x = BasicAuth.BASIC) := propext eq_comm
 
 theorem count_two_iff (l : List Bytes) : Cxx.count l = 2 ↔ ∃ a b, l = [a, b] := by
   unfold Cxx.count
@@ -69,27 +92,27 @@ theorem process_eq (ae : Ax.Env) (hT : TableText ae.round ae.table) :
       else (refusal ae.realm, false) := by
   unfold BasicAuthMiddleware_process BasicAuth.verdict
   unfold_auth_helpers
-  simp only [verify_eq, authorization_lit, www_lit, challenge_eq, Ax.ieq, basic_lit, Ax.setHeader, Ax.err, Ax.parserSplit,
+  simp only [verify_eq, authorization_lit, www_lit, challenge_eq, challenge_cat, Ax.ieq, basic_lit, Ax.setHeader, Ax.err, Ax.parserSplit,
     List.nil_append, refusal]
   generalize HeaderMap.value BasicAuth.AUTHORIZATION ae.hdrs = v
-  have hc : (58 : UInt8) = COLON := rfl
   rcases hsp : splitChar 32 v with _ | ⟨a, _ | ⟨b, _ | ⟨c, l⟩⟩⟩
-  · simp [Cxx.count]
-  · simp [Cxx.count]
+  · simp [Cxx.count, challenge_cons]
+  · simp [Cxx.count, challenge_cons]
   · -- scheme and token
     by_cases hs : lower a = BasicAuth.BASIC
-    · rcases hsq : split [COLON] 1 (BasicAuth.fromBase64 b) with _ | ⟨u, _ | ⟨p, _ | ⟨c, l⟩⟩⟩
-      · simp [Cxx.count, Cxx.nth, hs, hc, hsq]
-      · simp [Cxx.count, Cxx.nth, hs, hc, hsq]
+    · rcases hsq : split [58] 1 (BasicAuth.fromBase64 b) with _ | ⟨u, _ | ⟨p, _ | ⟨c, l⟩⟩⟩ <;>
+        have hsq' : split [COLON] 1 (BasicAuth.fromBase64 b) = _ := hsq
+      · simp [Cxx.count, Cxx.nth, last_two, last_nil, hs, hsq, hsq', challenge_cons, round_beq, round_eq, basic_beq, basic_eq]
+      · simp [Cxx.count, Cxx.nth, last_two, last_one, hs, hsq, hsq', challenge_cons, round_beq, round_eq, basic_beq, basic_eq]
       · cases hl : BasicAuth.lookup ae.table u == some p
-        · simp_all [Cxx.count, Cxx.nth]
+        · simp_all [Cxx.count, Cxx.nth, last_two, round_beq, round_eq, basic_beq, basic_eq] <;> (try simp [challenge_cons])
         · have hm := hT _ (lookup_mem (by simpa using hl))
-          simp_all [Cxx.count, Cxx.nth]
+          simp_all [Cxx.count, Cxx.nth, last_two, round_beq, round_eq, basic_beq, basic_eq] <;> (try simp [challenge_cons])
       · have hne : ¬ ((l.length : Int) + 1 + 1 + 1 = 2) := by omega
-        simp [Cxx.count, Cxx.nth, hs, hc, hsq, hne]
-    · simp [Cxx.count, Cxx.nth, hs]
+        simp [Cxx.count, Cxx.nth, last_two, hs, hsq, hsq', hne, challenge_cons, round_beq, round_eq, basic_beq, basic_eq]
+    · simp [Cxx.count, Cxx.nth, last_two, hs, challenge_cons, round_beq, round_eq, basic_beq, basic_eq]
   · have hne : ¬ ((l.length : Int) + 1 + 1 + 1 = 2) := by omega
-    simp [Cxx.count, hne]
+    simp [Cxx.count, hne, challenge_cons]
 
 /-- non-vacuity: a table of plain text and the identity round trip -/
 example : TableText id [(lit ['u'], lit ['p'])] := by intro e he; simp
